@@ -111,6 +111,66 @@ func runC15(r *Report, rng *rand.Rand, n int, enumerate bool) {
 			r.Violate("not_idempotent", "pruning the pruned document changed it", replay)
 		}
 	}
+	// ---- the whole generation (filters, then pruning, then the embedded specification): what the output embeds must be a
+	// pruned document - no dangling reference, nothing that no retained operation reaches, a second pruning changes nothing
+	nE2E := n / 6
+	for i := 0; i < nE2E; i++ {
+		d, _ := gendoc.Generate(rng, tameOpts())
+		fc := randFilterCfg(rng, d)
+		fc.SkipPrune = false
+		if i%2 == 0 && len(d.OpKeys()) > 0 {
+			// operations removed by their id
+			var ids []string
+			for _, p := range d.Paths {
+				for _, o := range p.Ops {
+					ids = append(ids, o.ID)
+				}
+			}
+			fc.IncludeTags, fc.ExcludeTags, fc.IncludeIDs = nil, nil, nil
+			fc.ExcludeIDs = randSubset(rng, ids, 2)
+			if i%4 == 0 {
+				fc.IncludeIDs, fc.ExcludeIDs = randSubset(rng, ids, 2), nil
+			}
+		}
+		data := d.JSON()
+		replay := map[string]any{"spec": json.RawMessage(data), "filter": fc, "end_to_end": true}
+		code, err := generate(data, cfgOf(fc))
+		if err != nil {
+			r.Dist["e2e_generate_error"]++
+			continue
+		}
+		p, err := parseGo(code)
+		if err != nil {
+			continue
+		}
+		parts, ok := p.swaggerSpecLiteral()
+		if !ok {
+			continue
+		}
+		root, _, err := decodeEmbedded(parts)
+		if err != nil {
+			continue
+		}
+		want := gendoc.SpecPrune(gendoc.SpecFilter(d, fc))
+		r.Count("e2e/"+string(data)+fmt.Sprint(fc), len(want.CompKeys()) < len(d.Comps) && len(want.CompKeys()) > 0)
+		r.Dist["end_to_end_with_filters"]++
+		dangling, unref := checkPrunedJSON(root)
+		if len(dangling) > 0 {
+			r.Violate("dangling_ref", fmt.Sprintf("end to end (filters %+v): the embedded document refers to removed components %v", fc, dangling), replay)
+		}
+		if len(unref) > 0 {
+			r.Violate("unreferenced_kept", fmt.Sprintf("end to end (filters %+v): components kept though nothing retained refers to them: %v", fc, unref), replay)
+		}
+		if rb, err := json.Marshal(root); err == nil {
+			if spec2, err := loadSpec(rb); err == nil {
+				before := compKeysOf(spec2)
+				codegen.VerifPruneUnusedComponents(spec2)
+				if after := compKeysOf(spec2); !eqStrings(sortedCopy(before), sortedCopy(after)) {
+					r.Violate("not_idempotent", fmt.Sprintf("end to end (filters %+v): pruning the embedded document again removes components: %v -> %v", fc, before, after), replay)
+				}
+			}
+		}
+	}
 	cases.WriteTo(r)
-	r.Rule = "documents drawn from the reference-position grammar (every component kind; refs from properties, items, additionalProperties, allOf/oneOf/anyOf/not, parameter schema/content/examples, body and response content, response headers/links, callbacks, path-level parameters); distinct = distinct JSON text; non-trivial = pruning removed at least one component and kept at least one"
+	r.Rule = "documents drawn from the reference-position grammar (every component kind; refs from properties, items, additionalProperties, allOf/oneOf/anyOf/not, parameter schema/content/examples, body and response content, response headers/links, callbacks, path-level parameters); end to end: tame documents generated with tag / operation-id filters and pruning, the embedded specification decoded from the output must have no dangling reference, no unreferenced component, and be a fixed point of pruning; distinct = distinct JSON text; non-trivial = pruning removed at least one component and kept at least one"
 }
